@@ -8,4 +8,9 @@ CLAIMED = {
   "note": "Partial with respect to the Go runtime: 'every schedule' is every schedule of the modelled transition system; goroutine scheduling is sampled. Mux pipelines are assumed 1:1 FIFO.",
   "technique": "Coq invariant proofs over small-step models + differential correspondence (vm_compute)",
  },
+ "C10": {
+  "text": "Theorems: the reference store Model/KV.v is an ordered byte-string map for every store/key/prefix/script (sortedness preserved by every script; get/set/delete/prefix-delete laws; Seek returns the least key >= k; the Seek/Valid&&HasPrefix/Next loop returns exactly the keys carrying the prefix, in order; a sorted store is determined by its lookups, so any two backends related to the same map answer every script identically). The four real drivers are tied to that map by a correspondence check that replays generated interface scripts (point ops, prefix deletes, cursor scripts inside View, Update transactions with nested views, BulkWrite) on a fresh Badger, Bolt, LevelDB and Pebble store each and compares every returned value.",
+  "note": "The adapters and storage libraries are not modelled, only compared (sampled). Eight genuine adapter defects found this way were repaired by fix: commits (known_findings.json).",
+  "technique": "Coq proofs about the sorted-map reference + differential correspondence on all four drivers",
+ },
 }
